@@ -3,7 +3,11 @@
 # run the quick checks against it (VERIF_REPO), remove the worktree. /repo itself and /verif/evidence are not touched.
 patch="$1"; shift
 wt=$(mktemp -d /tmp/seedwt.XXXXXX); rmdir "$wt"
-git -C /repo worktree add -q --detach "$wt" HEAD || exit 2
+# a change whose target code was replaced later carries "obsolete_after" and "base" in its meta.json: it is run against that commit
+base=HEAD
+meta="$(dirname "$patch")/meta.json"
+if [ -f "$meta" ] && grep -q obsolete_after "$meta"; then base=$(python3 -c "import json,sys; print(json.load(open(sys.argv[1]))['base'])" "$meta"); fi
+git -C /repo worktree add -q --detach "$wt" $base || exit 2
 ( cd "$wt" && git apply "$patch" ) || { echo "patch does not apply"; git -C /repo worktree remove --force "$wt"; exit 2; }
 ev=$(mktemp -d /tmp/seedev.XXXXXX)
 for p in "$@"; do
